@@ -91,6 +91,25 @@ def check_arrays(z, aot, nmodes, sizes):
         want = sum(c * full[k] for k, c in enumerate(coef))
         if ph.shape != (N, N) or not np.allclose(ph, want, rtol=0, atol=1e-10):
             return [("phaseFromZernikes:linear-combination", dict(N=N))]
+        # normalisation and rotation arguments must reach the modes (a phase is that linear combination for every norm / rot)
+        for norm in ("noll", "p2v", "rms"):
+            for rot in (0.0, 0.4):
+                Zs = np.asarray(z.zernikeArray(len(coef), N, norm=norm, rot=rot))
+                if norm == "noll":
+                    for j in range(1, len(coef) + 1):
+                        if not np.array_equal(Zs[j - 1], z.zernike_noll(j, N, rot)):
+                            return [("zernikeArray:rotation-argument", dict(N=N, j=j, rot=rot))]
+                if not np.all(np.isfinite(Zs)):
+                    continue
+                ph = np.asarray(z.phaseFromZernikes(list(coef), N, norm=norm, rot=rot))
+                want = sum(c * Zs[k] for k, c in enumerate(coef))
+                if ph.shape != (N, N) or not np.allclose(ph, want, rtol=0, atol=1e-10):
+                    return [("phaseFromZernikes:linear-combination:norm=%s,rot=%s" % (norm, "0" if rot == 0 else "nonzero"), dict(N=N))]
+        for k in range(min(nmodes, 6)):
+            unit = [0.0] * (k + 1)
+            unit[k] = 1.0
+            if not np.allclose(z.phaseFromZernikes(unit, N), full[k], rtol=0, atol=1e-12):
+                return [("phaseFromZernikes:unit-vector", dict(N=N, j=k + 1))]
         if hasattr(aot, "zernikeArray") and not np.array_equal(np.asarray(aot.zernikeArray(3, N)), full[:3]):
             return [("zernikeArray:package-export", dict(N=N))]
     return bad
